@@ -3,7 +3,8 @@
 For every operation under test and every pre-state: pass 1 records the system calls of the operation
 window under strace and compares them with the model's canonical trace; then the victim is killed at
 each call, and each call is made to fail (ENOSPC / EIO); every resulting directory is reopened with
-the real replica.New.  A victim whose call failed goes on: the directory is kept aside, Info() / Chain() /
+the real replica.New.  After a kill inside a snapshot / revert the restarted process is asked
+for a Snapshot and for a Revert (on copies of the directory); both must succeed.  A victim whose call failed goes on: the directory is kept aside, Info() / Chain() /
 ListDisks() are recorded, a regular Close follows, and the directory is reopened again.  Meta.Corr.check_vcase evaluates, per run, the C08 oracles on the
 implementation's observations and compares directory, result and reopen observation with the model.
 """
@@ -127,6 +128,12 @@ def describe(vc, run):
                 call_index=run["j"], call=e["text"][:160], model_call_index=run["mi"],
                 result=run["res"].get("res"), error=run["res"].get("err", "")[:200],
                 reopen=dict(res=run["obs"][1].get("res"), err=run["obs"][1].get("err", "")[:200], chain=run["obs"][1].get("chain")),
+                follow_up=None if not run.get("follow") else {
+                    kind: dict(ops=metalib.FOLLOW[kind],
+                               steps=[dict(res=ob.get("res"), err=(ob.get("err") or "")[:200], chain=ob.get("chain")) for ob in obs],
+                               oracle=(run.get("f_res") or {}).get(kind, {}).get("oracle"),
+                               model_vs_impl=(run.get("f_res") or {}).get(kind))
+                    for kind, obs in run["follow"].items()},
                 went_on=None if not run.get("obs2") else dict(
                     memory=dict(chain=run["res"]["mem"].get("chain"), chainerr=run["res"]["mem"].get("chainerr", False),
                                 info=run["res"]["mem"].get("info")),
@@ -152,8 +159,8 @@ def lint_durable(ctx, vcases, results):
     return {i: v.strip().startswith("true") for i, v in zip(idx, vals)}
 
 
-def run_plan(ctx, metabin, victim, vcases, tag="v", only=None):
-    results = metalib.run_vcases(ctx, metabin, victim, vcases, tag=tag, only=only)
+def run_plan(ctx, metabin, victim, vcases, tag="v", only=None, follow_step=1):
+    results = metalib.run_vcases(ctx, metabin, victim, vcases, tag=tag, only=only, follow_step=follow_step)
     metalib.eval_vcases(ctx, vcases, results, tag=tag + "e")
     dur = lint_durable(ctx, vcases, results)
     concrete, known, drift = [], [], []
@@ -169,6 +176,12 @@ def run_plan(ctx, metabin, victim, vcases, tag="v", only=None):
             # agree on the empty trace and on the result of the complete run)
             drift.append(dict(kind="not-evaluated", vc=vc, info=info))
         for r in info["runs"]:
+            # after a kill inside a snapshot / revert: the restarted process must be able to take a snapshot and to revert
+            for kind, fr in (r.get("f_res") or {}).items():
+                if not fr["oracle"]:
+                    concrete.append(dict(kind="oracle", vc=vc, run=r, shape=None, follow=kind))
+                elif fr["aligned"] and (fr["step"] != 999 or not fr["model_oracle"]):
+                    drift.append(dict(kind="run", vc=vc, run=r, follow=kind))
             if "oracle" not in r:
                 continue
             if not r["oracle"]:
@@ -205,8 +218,13 @@ def shrink_pre(ctx, metabin, victim, item):
                 metalib.eval_vcases(ctx, [v2], res, tag="shre%d_%d" % (rounds, i))
             except Exception:
                 continue
-            same = [r for r in res[0]["runs"] if "oracle" in r and (not r["oracle"] or r.get("c_oracle") is False)
-                    and (r["errno"] is None) == (en is None) and shape_of(v2, r) is None and shape_of_cont(v2, r) is None]
+            def follow_bad(r):
+                return any(not fr["oracle"] for fr in (r.get("f_res") or {}).values())
+            if item.get("follow"):
+                same = [r for r in res[0]["runs"] if follow_bad(r)]
+            else:
+                same = [r for r in res[0]["runs"] if "oracle" in r and (not r["oracle"] or r.get("c_oracle") is False)
+                        and (r["errno"] is None) == (en is None) and shape_of(v2, r) is None and shape_of_cont(v2, r) is None]
             if same:
                 cur = cand
                 best = (v2, same[0])
@@ -240,6 +258,10 @@ def main(ctx, replay=None):
         for r in sorted(res[0]["runs"], key=lambda r: (r["errno"] is not None, r["j"])):
             print(json.dumps(describe(vc, r)))
             print("   oracle:", r.get("oracle"), " after going on:", r.get("c_oracle"), " known shape:", shape_of(vc, r) or shape_of_cont(vc, r))
+            for kind, fr in (r.get("f_res") or {}).items():
+                print("   follow-up %s by the restarted process: oracle %s" % (kind, fr["oracle"]))
+                if not fr["oracle"]:
+                    bad = True
             if r.get("oracle") is False or r.get("c_oracle") is False:
                 bad = True
         print("verdict:", "oracle fails" if bad else "oracle holds")
@@ -247,7 +269,8 @@ def main(ctx, replay=None):
         sys.exit(1 if bad else 0)
 
     vcases = plan(ctx.tier)
-    results, concrete, known, drift = run_plan(ctx, metabin, victim, vcases)
+    # quick: the follow-up histories after every third kill point (and the last); thorough: after every one
+    results, concrete, known, drift = run_plan(ctx, metabin, victim, vcases, follow_step=3 if ctx.tier == "quick" else 1)
 
     for k in known:
         if k["shape"] in known_keys:
@@ -267,7 +290,9 @@ def main(ctx, replay=None):
         else:
             v2, r2 = shrink_pre(ctx, metabin, victim, it)
             d = describe(v2, r2)
-            d.update(property="C08", kind="C08 oracle (%s) fails on the implementation" % ("kill" if r2["errno"] is None else "fail"),
+            d.update(property="C08", kind="C08 oracle (%s) fails on the implementation" % (
+                         ("kill, then a follow-up %s by the restarted process" % it["follow"]) if it.get("follow") else
+                         ("kill" if r2["errno"] is None else "fail")),
                      shape=it.get("shape"), replay_cmd="bin/vcheck C08 --replay <this file>")
             vlib.violation(ctx, d)
     elif drift or not proof["ok"]:
@@ -331,6 +356,7 @@ def main(ctx, replay=None):
                  input_distribution=kinds,
                  coverage_flags=dict(kill_before_commit=between, kill_after_commit=after, error_reported_over_new_state=errpost,
                                      went_on_after_failure=sum(1 for i in results for r in i["runs"] if "c_oracle" in r),
+                                     follow_up_after_kill=sum(len(r.get("f_res") or {}) for i in results for r in i["runs"]),
                                      calls_per_operation={("%s@%s" % (vc["kind"], vc["prename"])): i["nsys"] for vc, i in zip(vcases, results)}),
                  theorems=proof.get("theorems", []), exhaustive=False)
     samples = []
